@@ -231,8 +231,7 @@ impl TypeRefPatcher<'_> {
         // First, lookup the type as a node in the AST.
         // Second, handle the case where the type is an alias (by resolving down to its concrete underlying type).
         // Third, get the type's pointer from its node and attempt to cast it to `T` (the required Slice type).
-        let lookup_result = ast
-            .find_node_with_scope(&identifier.value, type_ref.module_scope())
+        let lookup_result = find_named_node(ast, &identifier.value, type_ref.module_scope())
             .and_then(|node| {
                 // We perform the deprecation check here instead of the validators since we need to check type-aliases
                 // which are resolved and erased after TypeRef patching is completed.
@@ -349,7 +348,7 @@ impl TypeRefPatcher<'_> {
             };
 
             // We hit another unpatched alias; try to resolve its underlying type's identifier in the AST.
-            let node = ast.find_node_with_scope(&identifier.value, underlying_type.module_scope())?;
+            let node = find_named_node(ast, &identifier.value, underlying_type.module_scope())?;
             // If the resolved node is another type alias, push it onto the chain and loop again, otherwise return it.
             if let Node::TypeAlias(next_type_alias) = node {
                 current_type_alias = next_type_alias.borrow();
@@ -357,6 +356,20 @@ impl TypeRefPatcher<'_> {
                 return try_into_patch(node, attributes);
             }
         }
+    }
+}
+
+/// Looks up the node that a type reference designates by name.
+///
+/// The primitive types are in the AST's lookup table too (under their keywords), but a name never designates one of
+/// them: `int32` is a keyword, and is patched by the parser, whereas `\int32` is the name of a user-defined type.
+/// Without this check, a reference to `\int32` would silently bind to the primitive when no such type is in scope.
+fn find_named_node<'a>(ast: &'a Ast, identifier: &str, scope: &str) -> Result<&'a Node, LookupError> {
+    match ast.find_node_with_scope(identifier, scope)? {
+        Node::Primitive(_) => Err(LookupError::DoesNotExist {
+            identifier: identifier.trim_start_matches("::").to_owned(),
+        }),
+        node => Ok(node),
     }
 }
 
